@@ -246,6 +246,8 @@ class ContiguousBlockAllocator():
         # // this 'if' prevents an error if a Buffer object is freed twice
         if addr is None:
             return
+        if not 0 <= addr - self.addr_offset < self.size:
+            return  # // not an address of this partition
         block = self._array[addr - self.addr_offset]
         if block is not None and block.used:
             block.used = False
